@@ -500,6 +500,53 @@ def fresh_default(ctx, res):
         "callable_and_args": ("PyObject_Call(",),
         "callable": ("PyObject_Call(", "->validate("),
     }
+    # summaries over the in-file helpers (so that extracting an arm into a
+    # helper keeps the rule decidable): which functions return a new object
+    # on every successful path, and which reach _warn_on_attribute_error
+    from ..capi import API
+    from ..cexpr import callee as _callee
+    import re as _re
+
+    def _head(t):
+        m = _re.match(r"([A-Za-z_]\w*)\(", t)
+        return m.group(1) if m else None
+    fresh_fn = {}
+
+    def returns_fresh(f, depth=0):
+        if f in fresh_fn:
+            return fresh_fn[f]
+        fresh_fn[f] = False
+        if depth > 3 or not facts.has_func(f):
+            return False
+        try:
+            ps_f, _, _ = paths_of(ctx, f)
+        except AnalysisError:
+            return False
+        ok_all, some = True, False
+        for p_ in ps_f:
+            if p_.outcome[0] != "RETURN" or p_.outcome[1] in ("0", ""):
+                continue
+            some = True
+            if not is_fresh_text(p_.outcome[1], depth + 1):
+                ok_all = False
+        fresh_fn[f] = ok_all and some
+        return fresh_fn[f]
+
+    def is_fresh_text(rv, depth=0):
+        if _re.match(r"\w+->validate\(", rv):
+            return True         # validators return a new reference
+        h = _head(rv)
+        if h is None:
+            return False
+        if h in API:
+            return API[h]["ret"] == "new"
+        return returns_fresh(h, depth)
+    warns = set()
+    for f in facts.defined_functions():
+        if any(x.kind == "CallExpr"
+               and _callee(x) == "_warn_on_attribute_error"
+               for x in facts.func(f).walk()):
+            warns.add(f)
     for name, prefixes in fresh.items():
         if name not in kinds:
             raise AnalysisError(f"DefaultValue.{name} missing")
@@ -511,7 +558,7 @@ def fresh_default(ctx, res):
                 continue
             rv = p.outcome[1]
             ok = any(rv.startswith(px) or (px in rv and "->validate(" in px)
-                     for px in prefixes)
+                     for px in prefixes) or is_fresh_text(rv)
             res.oblige(ok and rv != "trait->default_value", key + ":fresh",
                        f"{CREL}:{p.lines[-1]}",
                        f"default kind {name} returns `{rv[:80]}`: every "
@@ -524,7 +571,7 @@ def fresh_default(ctx, res):
                            f"(trait, obj, name): `{rv[:90]}`")
             if name.startswith("callable"):
                 warned = any(e[0] == "_warn_on_attribute_error"
-                             for e in p.events)
+                             or e[0] in warns for e in p.events)
                 res.oblige(warned, key + ":attr-error-warning",
                            f"{CREL}:{p.lines[-1]}",
                            "the callable default's result is not passed "
